@@ -372,6 +372,7 @@ def add_layout_variants_stream(env, res=None, directory: str = 'sy7') -> int:
              'sy7_v1_enc': (fx / 'bbb_v7_enc.mp4').read_bytes(),
              'sy7_a1_enc': restructure((fx / 'bbb_a1_enc.mp4').read_bytes(), explicit_base=True),
              'sy7_a1': bytes(a1),
+             'sy7_a4': restructure((fx / 'bbb_a2.mp4').read_bytes(), free_before_mdat=12, second_gap=20),   # two boxes in the gap
              'sy7_a3_enc': widen_ivs((fx / 'bbb_a1_enc.mp4').read_bytes())}     # 16 byte per-sample IVs
     for name, data in files.items():
         assert len(ib.index_file(data).segments) == 10, name
@@ -521,7 +522,7 @@ def _patch_sizes(m: bytearray, chain: list, delta: int) -> None:
 def restructure(buf: bytes, first_sequence: int | None = None, drop_tfdt: bool = False,
                 explicit_base: bool = False, plain_base: bool = False,
                 senc_override: bytes | None = None, moof_pssh: bytes | None = None,
-                free_before_mdat: int | None = None) -> bytes:
+                free_before_mdat: int | None = None, second_gap: int | None = None) -> bytes:
     """Re-lays a fragmented file out fragment by fragment (same payloads, same durations):
       first_sequence  mfhd sequence numbers count from this value instead of 1
       drop_tfdt       the tfdt box of every fragment is removed (decode times must be derived)
@@ -534,6 +535,7 @@ def restructure(buf: bytes, first_sequence: int | None = None, drop_tfdt: bool =
                       under test reads and writes them)
       moof_pssh       this (pssh) box becomes the last child of the first moof box
       free_before_mdat  a free box with that many payload bytes separates every moof from its mdat
+      second_gap      (with free_before_mdat) a second free box with that many payload bytes follows the first
     sidx referenced sizes, trun data offsets and saio offsets are kept consistent with the new layout."""
     root = ib.parse_file(buf)
     out = bytearray()
@@ -600,6 +602,8 @@ def restructure(buf: bytes, first_sequence: int | None = None, drop_tfdt: bool =
             moof_pssh = None
         if free_before_mdat is not None:
             delta += 8 + free_before_mdat
+            if second_gap is not None:
+                delta += 8 + second_gap
         if delta or senc_override is not None:
             local = ib.parse_file(bytes(m)).children[0]
             so, se = local.find(b'traf', b'saio'), local.find(b'traf', b'senc')
@@ -628,6 +632,8 @@ def restructure(buf: bytes, first_sequence: int | None = None, drop_tfdt: bool =
         out += m
         if free_before_mdat is not None:
             out += struct.pack('>I', 8 + free_before_mdat) + b'free' + b'\0' * free_before_mdat
+            if second_gap is not None:
+                out += struct.pack('>I', 8 + second_gap) + b'free' + b'\0' * second_gap
     for field_off, moof_pos in bases:
         struct.pack_into('>Q', out, field_off, moof_pos)
     return bytes(out)
